@@ -165,7 +165,15 @@ func (rw *recWriter) WriteHeader(code int) {
 		rw.req.Status = code
 		rw.req.Header = rw.ResponseWriter.Header().Clone()
 	}
+	hold := rw.w.HoldHeader
+	snapshot := *rw.req
 	rw.w.mu.Unlock()
+	if hold != nil {
+		// a slow connection: the scenario may keep this header write waiting
+		if ch := hold(snapshot, code); ch != nil {
+			<-ch
+		}
+	}
 	rw.ResponseWriter.WriteHeader(code)
 }
 
@@ -221,6 +229,10 @@ type World struct {
 	ErrLog    bytes.Buffer
 	errMu     sync.Mutex
 	DefaultHits atomic.Int64
+
+	// HoldHeader, if set (SetHoldHeader), is asked on every WriteHeader; a non-nil channel keeps
+	// that header write waiting until the channel is closed.
+	HoldHeader func(req Req, code int) chan struct{}
 
 	onConn func(engine.Socket)
 	// OnHook, if set, sees every hook arrival routed to this world.
@@ -310,6 +322,13 @@ func (w *World) wrap(h http.Handler) http.Handler {
 		}()
 		h.ServeHTTP(&recWriter{ResponseWriter: rw, w: w, req: req}, r)
 	})
+}
+
+// SetHoldHeader installs (or removes, with nil) the header-write gate.
+func (w *World) SetHoldHeader(f func(req Req, code int) chan struct{}) {
+	w.mu.Lock()
+	w.HoldHeader = f
+	w.mu.Unlock()
 }
 
 // Requests returns a snapshot of the recorded exchanges.
